@@ -10,6 +10,7 @@ import (
 	"sort"
 	"strings"
 	"sync"
+	"sync/atomic"
 	"testing"
 	"time"
 
@@ -105,10 +106,14 @@ type world struct {
 	table   string
 	seed    []interface{}
 	actions []action
+	// multiRow: consecutive queued changes of one kind are delivered as one rows event
+	multiRow bool
 }
 
+var multiRowEvents int32
+
 func gen(t *rapid.T) world {
-	w := world{table: rapid.SampledFrom(sw.Tables).Draw(t, "table")}
+	w := world{table: rapid.SampledFrom(sw.Tables).Draw(t, "table"), multiRow: rapid.Bool().Draw(t, "multirow")}
 	nseed := rapid.IntRange(0, 6).Draw(t, "nseed")
 	ids := nseed
 	for i := 0; i < nseed; i++ {
@@ -244,11 +249,21 @@ func check(w world) (nt bool, labels []string, sig string, err error) {
 		qmu.Lock()
 		defer qmu.Unlock()
 		for i := 0; i < n && len(queue) > 0; i++ {
-			evs, err := fakebinlog.Events("testdb", def, queue[0])
+			// several consecutive changes of one kind may travel as one multi-row event
+			k := 1
+			if w.multiRow {
+				for k < len(queue) && k < 4 && fakebinlog.SameEvent(queue[0], queue[k]) {
+					k++
+				}
+			}
+			evs, err := fakebinlog.EventsMulti("testdb", def, queue[:k])
 			if err != nil {
 				return fmt.Errorf("harness: %v", err)
 			}
-			queue = queue[1:]
+			if k > 1 {
+				atomic.AddInt32(&multiRowEvents, 1)
+			}
+			queue = queue[k:]
 			for _, e := range evs {
 				bl.Inject(e)
 			}
